@@ -337,12 +337,14 @@ func handleBooleanReturns(rootNode *RootAssertionNode, retStmt *ast.ReturnStmt, 
 	nMinusOneRetExpr := results[:nRetIndex] // n-1 expressions
 
 	// check if the return statement is of the currently supported explicit boolean return form (`return ..., {true|false}`)
-	typeAndValue, ok := rootNode.Pass().TypesInfo.Types[nRetExpr]
+	val, ok := constant.Val(rootNode.Pass().TypesInfo.Types[nRetExpr].Value).(bool)
 	if !ok {
-		return false
-	}
-	val, ok := constant.Val(typeAndValue.Value).(bool)
-	if !ok {
+		// The boolean result is not a compile-time constant (e.g., a named result returned by a
+		// bare `return`, or an arbitrary expression), so it may well be true. The n-1 results then
+		// get the normal handling by the caller, but they still must take part in the "always
+		// safe" tracking: otherwise a function whose other return statements all return non-nil
+		// values would be considered always safe, and unchecked uses of its result would be missed.
+		createReturnConsumersForAlwaysSafe(rootNode, nMinusOneRetExpr, retStmt, isNamedReturn)
 		return false
 	}
 
